@@ -11,6 +11,41 @@ SHARD = 1200
 CHUNK = {"sm": 2500, "c17": 8, "c09": 100}
 
 
+class HarnessCrash(RuntimeError):
+    def __init__(self, out, text, cmd):
+        RuntimeError.__init__(self, "harness crashed (full text in %s):\n%s" % (os.path.join(out, "harness_crash.txt"), text))
+        self.out, self.text, self.cmd = out, text, cmd
+
+
+def bisect_crash(hx, crash):
+    """The harness process died (a Go panic inside an engine goroutine cannot be recovered): run every input of
+    the shard in a process of its own to find the ones that kill it."""
+    ipath = os.path.join(crash.out, "inputs.json")
+    if not os.path.exists(ipath):
+        return []
+    inputs = json.load(open(ipath))
+    culprits = []
+
+    def one(k):
+        d = os.path.join(crash.out, "bisect%d" % k)
+        os.makedirs(d, exist_ok=True)
+        f = os.path.join(d, "in.json")
+        u = dict(inputs[k]) if isinstance(inputs[k], dict) else inputs[k]
+        json.dump([u], open(f, "w"))
+        p = core.run_hx([hx, "-replay", f, "-out", d])
+        if p.returncode != 0:
+            err = p.stderr or ""
+            m = err.find("panic:")
+            return (inputs[k], err[max(m, 0): max(m, 0) + 1500])
+        return None
+
+    with cf.ThreadPoolExecutor(max_workers=8) as ex:
+        for r in ex.map(one, range(len(inputs))):
+            if r:
+                culprits.append(r)
+    return culprits
+
+
 def _eval_shard(args):
     hx, corr, seed, n, out, replay, slow, mode = args
     os.makedirs(out, exist_ok=True)
@@ -33,7 +68,7 @@ def _eval_shard(args):
         m = err.find("panic:")
         f = err.find("fatal error:")
         k = min([x for x in (m, f) if x >= 0], default=0)
-        raise RuntimeError("harness crashed (full text in %s):\n%s" % (os.path.join(out, "harness_crash.txt"), err[k:k + 2500]))
+        raise HarnessCrash(out, err[k:k + 2500], cmd)
     cases, bad, wall = [], [], 0.0
     files = sorted(glob.glob(os.path.join(out, "cases_*.v")))
     with cf.ThreadPoolExecutor(max_workers=6) as ex:
@@ -140,24 +175,34 @@ def standard_flow(res, hx, corr, n, signature, describe, rule, nontrivial, key, 
 
     model_ok = props["ok"] or os.path.exists(os.path.join(core.COQ, "Corr", corr + ".vo"))
     cases, bad = [], []
+    crashes = []
+    _explore = explore
+
+    def explore_safe(*a, **k):
+        try:
+            return _explore(*a, **k)
+        except HarnessCrash as hc:
+            found = bisect_crash(hx, hc)
+            crashes.append((hc, found))
+            return [], []
     corpus = sorted(glob.glob(os.path.join(core.ROOT, "corpus", res.prop, "*.json")))
     if replay:
         corpus = [replay]
     if model_ok:
         for cp in corpus:
-            c1, b1 = explore(res, hx, corr, 0, res.seed, "corpus", replay=cp, mode=mode)
+            c1, b1 = explore_safe(res, hx, corr, 0, res.seed, "corpus", replay=cp, mode=mode)
             cases += c1
             bad += b1
         if not replay and plans:
             # several explorations: (tag, mode, n, shard, fixed_seed or None)
             for tag, pmode, pn, pshard, pseed in plans:
-                c1, b1 = explore(res, hx, corr, pn, res.seed if pseed is None else pseed, tag, mode=pmode, shard=pshard)
+                c1, b1 = explore_safe(res, hx, corr, pn, res.seed if pseed is None else pseed, tag, mode=pmode, shard=pshard)
                 for c in c1:
                     c["_plan"] = tag
                 cases += c1
                 bad += b1
         elif not replay and n > 0:
-            c1, b1 = explore(res, hx, corr, n, res.seed, "gen", mode=mode, shard=shard)
+            c1, b1 = explore_safe(res, hx, corr, n, res.seed, "gen", mode=mode, shard=shard)
             cases += c1
             bad += b1
     else:
@@ -215,6 +260,13 @@ def standard_flow(res, hx, corr, n, signature, describe, rule, nontrivial, key, 
                     vio = v2
                     break
 
+    for hc, found in crashes:
+        if found:
+            for inp, text in found[:3]:
+                res.violation("the implementation panics on this input (the process dies: a panic inside an engine goroutine)",
+                              {"replay_case": inp, "panic": text})
+        else:
+            res.violation("the harness process died and no single input reproduces it", {"crash": hc.text}, no_input=True)
     seen = set()
     for c, code, step in vio:
         k = (key(c), step)
